@@ -420,7 +420,8 @@ def oracle(ctx, pairs, seed_base=0):
         if p.src.num_blocks + p.dst.num_blocks <= 4000:
             case = {'kind': 'data', 'src': p.sspec, 'dst': p.dspec, 'gseed': seed_base + 900 + i, 'rename': bool(i & 1), 'preserve': bool(i & 2)}
             r = O.check_data_transfer(ctx, case, p.src, p.dst)
-            ndata[r or 'skipped-or-failed'] = ndata.get(r or 'skipped-or-failed', 0) + 1
+            k = r or ('skipped: source without atmosphere blocks, target with' if G.atm_code(p.src) == 2 and G.atm_code(p.dst) != 2 else 'failed')
+            ndata[k] = ndata.get(k, 0) + 1
         if p.src.num_blocks + p.dst.num_blocks <= 4000:
             # object history: compute mappings, then move / re-surface the same objects in place, evaluate again
             r = random.Random(1000003 * (seed_base + 1) + i)
